@@ -94,6 +94,9 @@ func c06GenTx(r *simrt.Rand, i int) node.TxSpec {
 		if s.Eth && r.Chance(0.15) {
 			s.NDelta = []int{-1, 1}[r.Intn(2)]
 		}
+	case x < 82:
+		s.K = "node"
+		s.From = 4 + r.Intn(4)
 	case x < 88:
 		s.K = "apply"
 		s.From = 4 + r.Intn(4)
